@@ -1,5 +1,5 @@
 (* C20 — lemmas. *)
-From Coq Require Import ZArith List Bool Lia Ring Field.
+From Coq Require Import ZArith List Bool Lia Ring Field Sorted.
 From IBL.lib Require Import PyInt.
 From IBL.C20 Require Import Model.
 Import ListNotations.
@@ -14,3 +14,837 @@ Proof.
   replace (Z.min 0 (Z.of_nat (length (filt (edge_pad 0 x))))) with 0 by lia.
   reflexivity.
 Qed.
+(* ------------------------------------------------------------------ *)
+(* generic sums                                                        *)
+(* ------------------------------------------------------------------ *)
+Lemma zsum_app l1 l2 : zsum (l1 ++ l2) = zsum l1 + zsum l2.
+Proof. induction l1 as [|a l IH]; cbn [app zsum fold_right]; [reflexivity|]. fold (zsum (l ++ l2)) (zsum l). lia. Qed.
+
+Lemma zsum_map_add {A} (f g : A -> Z) l :
+  zsum (map (fun x => f x + g x) l) = zsum (map f l) + zsum (map g l).
+Proof.
+  induction l as [|a l IH]; cbn [map zsum fold_right]; [reflexivity|].
+  fold (zsum (map (fun x => f x + g x) l)) (zsum (map f l)) (zsum (map g l)). lia.
+Qed.
+
+Lemma zsum_map_ext {A} (f g : A -> Z) l :
+  (forall x, In x l -> f x = g x) -> zsum (map f l) = zsum (map g l).
+Proof.
+  induction l as [|a l IH]; intros H; cbn [map zsum fold_right]; [reflexivity|].
+  fold (zsum (map f l)) (zsum (map g l)). rewrite (H a (or_introl eq_refl)), IH; [reflexivity|].
+  intros x Hx. apply H. now right.
+Qed.
+
+Lemma zsum_map_zero {A} (l : list A) : zsum (map (fun _ => 0) l) = 0.
+Proof. induction l as [|a l IH]; cbn [map zsum fold_right]; [reflexivity|]. fold (zsum (map (fun _ : A => 0) l)). lia. Qed.
+
+Lemma zsum_swap {A B} (f : A -> B -> Z) la lb :
+  zsum (map (fun a => zsum (map (f a) lb)) la) = zsum (map (fun b => zsum (map (fun a => f a b) la)) lb).
+Proof.
+  induction la as [|a la IH]; cbn [map zsum fold_right].
+  - now rewrite zsum_map_zero.
+  - fold (zsum (map (fun a0 => zsum (map (f a0) lb)) la)). rewrite IH.
+    rewrite <- zsum_map_add. apply zsum_map_ext. intros b _.
+    cbn [map zsum fold_right]. reflexivity.
+Qed.
+
+Lemma zrange_S n : zrange (S n) = zrange n ++ [Z.of_nat n].
+Proof. unfold zrange. rewrite seq_S, map_app. reflexivity. Qed.
+
+Lemma zsum_indicator (N : nat) (a : Z) : 0 <= a < Z.of_nat N ->
+  zsum (map (fun j => if j =? a then 1 else 0) (zrange N)) = 1.
+Proof.
+  induction N as [|N IH]; intros Ha; [lia|].
+  rewrite zrange_S, map_app, zsum_app. cbn [map zsum fold_right].
+  destruct (Z.eqb_spec (Z.of_nat N) a) as [E|E].
+  - rewrite (zsum_map_ext _ (fun _ => 0)), zsum_map_zero; [lia|].
+    intros x Hx. apply in_zrange in Hx. destruct (Z.eqb_spec x a); lia.
+  - rewrite IH by lia. lia.
+Qed.
+
+Lemma count_eq_cons k a l : count_eq k (a :: l) = (if k =? a then 1 else 0) + count_eq k l.
+Proof. unfold count_eq. cbn [filter]. destruct (k =? a); cbn [length]; lia. Qed.
+
+Lemma count_eq_nonneg k l : 0 <= count_eq k l.
+Proof. unfold count_eq. lia. Qed.
+
+(* the bins (or chunks) partition a list of ids *)
+Lemma count_partition (N : nat) (l : list Z) :
+  (forall x, In x l -> 0 <= x < Z.of_nat N) ->
+  zsum (map (fun j => count_eq j l) (zrange N)) = Z.of_nat (length l).
+Proof.
+  induction l as [|a l IH]; intros H.
+  - unfold count_eq. cbn [filter length]. apply zsum_map_zero.
+  - rewrite (zsum_map_ext _ (fun j => (if j =? a then 1 else 0) + count_eq j l))
+      by (intros; apply count_eq_cons).
+    rewrite zsum_map_add, zsum_indicator, IH.
+    + cbn [length]. lia.
+    + intros x Hx. apply H. now right.
+    + apply H. now left.
+Qed.
+
+Lemma zmaxl_ge l x : In x l -> x <= zmaxl l.
+Proof.
+  induction l as [|a l IH]; intros H; [destruct H|].
+  cbn [zmaxl fold_right]. fold (zmaxl l). destruct H as [->|H]; [lia|]. specialize (IH H). lia.
+Qed.
+Lemma zmaxl_nonneg l : 0 <= zmaxl l.
+Proof. induction l as [|a l IH]; cbn [zmaxl fold_right]; [lia|]. fold (zmaxl l). lia. Qed.
+
+Lemma option_all_some {A} (l : list (option A)) l' : option_all l = Some l' -> l = map Some l'.
+Proof.
+  revert l'. induction l as [|a l IH]; intros l' H; cbn [option_all] in H.
+  - inversion H. reflexivity.
+  - destruct a as [a|]; [|discriminate]. destruct (option_all l) as [r|]; [|discriminate].
+    inversion H. cbn [map]. now rewrite (IH r eq_refl).
+Qed.
+
+(* ------------------------------------------------------------------ *)
+(* venn: the peeling loop                                               *)
+(* ------------------------------------------------------------------ *)
+Lemma add_code_sum n s pre bs :
+  n = 2 \/ n = 3 -> length pre = Z.to_nat (2 ^ n - 1) -> length bs = Z.to_nat n ->
+  0 <= s < n -> existsb (fun b => b) bs = true ->
+  length (add_at pre (vec_code bs - 1) 1) = length pre /\
+  region_sum n s (add_at pre (vec_code bs - 1) 1)
+  = region_sum n s pre + (if nth (Z.to_nat s) bs false then 1 else 0).
+Proof.
+  intros [-> | ->] Hp Hb Hs Hex.
+  - destruct pre as [|p1 [|p2 [|p3 [|? ?]]]]; try discriminate Hp.
+    destruct bs as [|b1 [|b2 [|? ?]]]; try discriminate Hb.
+    assert (Hs' : s = 0 \/ s = 1) by lia.
+    destruct Hs' as [-> | ->]; destruct b1, b2; try discriminate Hex;
+      (split; [reflexivity | cbv -[Z.add]; cbn; lia]).
+  - destruct pre as [|p1 [|p2 [|p3 [|p4 [|p5 [|p6 [|p7 [|? ?]]]]]]]]; try discriminate Hp.
+    destruct bs as [|b1 [|b2 [|b3 [|? ?]]]]; try discriminate Hb.
+    assert (Hs' : s = 0 \/ s = 1 \/ s = 2) by lia.
+    destruct Hs' as [-> | [-> | ->]]; destruct b1, b2, b3; try discriminate Hex;
+      (split; [reflexivity | cbv -[Z.add]; cbn; lia]).
+Qed.
+
+(* contribution of one bin (count vector col) at peeling level i to sorter s *)
+Definition gsel (s : Z) (col : list Z) (i : Z) : Z :=
+  if (zmaxl col - i >? 0) && (nth (Z.to_nat s) col 0 >=? zmaxl col - i) then 1 else 0.
+
+Lemma existsb_ge_max (col : list Z) t : 0 < t <= zmaxl col ->
+  existsb (fun b => b) (map (fun c => c >=? t) col) = true.
+Proof.
+  induction col as [|a col IH]; cbn [zmaxl fold_right map existsb]; intros H; [lia|].
+  fold (zmaxl col) in H. destruct (Z.geb_spec a t) as [G|G]; [reflexivity|].
+  cbn [orb]. apply IH. lia.
+Qed.
+
+Lemma col_step n s pre col i :
+  n = 2 \/ n = 3 -> length pre = Z.to_nat (2 ^ n - 1) -> length col = Z.to_nat n ->
+  0 <= s < n -> 0 <= i ->
+  let pre' := accumulate pre (level_codes [col] i) in
+  length pre' = length pre /\ region_sum n s pre' = region_sum n s pre + gsel s col i.
+Proof.
+  intros Hn Hp Hc Hs Hi. unfold level_codes, gsel. cbn [flat_map]. rewrite app_nil_r.
+  destruct (Z.gtb_spec (zmaxl col - i) 0) as [G|G]; cbn [andb].
+  - unfold accumulate. cbn [fold_left].
+    destruct (add_code_sum n s pre (map (fun c => c >=? zmaxl col - i) col) Hn Hp) as [H1 H2];
+      [now rewrite map_length | exact Hs | apply existsb_ge_max; lia |].
+    split; [exact H1|]. rewrite H2. f_equal.
+    rewrite (nth_indep _ false ((fun c => c >=? zmaxl col - i) 0)) by (rewrite map_length; lia).
+    rewrite (map_nth (fun c => c >=? zmaxl col - i) col 0). reflexivity.
+  - unfold accumulate. cbn [fold_left]. split; [reflexivity | lia].
+Qed.
+
+Lemma accumulate_app pre a b : accumulate pre (a ++ b) = accumulate (accumulate pre a) b.
+Proof. unfold accumulate. apply fold_left_app. Qed.
+
+Lemma level_codes_cons col cols i : level_codes (col :: cols) i = level_codes [col] i ++ level_codes cols i.
+Proof. unfold level_codes. cbn [flat_map]. now rewrite app_nil_r. Qed.
+
+Lemma level_step n s cols : forall pre i,
+  n = 2 \/ n = 3 -> length pre = Z.to_nat (2 ^ n - 1) ->
+  (forall col, In col cols -> length col = Z.to_nat n) -> 0 <= s < n -> 0 <= i ->
+  let pre' := accumulate pre (level_codes cols i) in
+  length pre' = length pre /\
+  region_sum n s pre' = region_sum n s pre + zsum (map (fun col => gsel s col i) cols).
+Proof.
+  induction cols as [|col cols IH]; intros pre i Hn Hp Hc Hs Hi.
+  - cbn. split; [reflexivity | lia].
+  - cbv zeta. rewrite level_codes_cons, accumulate_app.
+    destruct (col_step n s pre col i Hn Hp (Hc col (or_introl eq_refl)) Hs Hi) as [H1 H2].
+    destruct (IH (accumulate pre (level_codes [col] i)) i Hn (eq_trans H1 Hp)
+                 (fun c Hc' => Hc c (or_intror Hc')) Hs Hi) as [H3 H4].
+    split; [congruence|]. rewrite H4, H2. cbn [map zsum fold_right]. fold (zsum (map (fun c => gsel s c i) cols)). lia.
+Qed.
+
+Lemma levels_step n s cols (levels : list Z) : forall pre,
+  n = 2 \/ n = 3 -> length pre = Z.to_nat (2 ^ n - 1) ->
+  (forall col, In col cols -> length col = Z.to_nat n) -> 0 <= s < n ->
+  (forall i, In i levels -> 0 <= i) ->
+  let pre' := fold_left (fun p i => accumulate p (level_codes cols i)) levels pre in
+  length pre' = length pre /\
+  region_sum n s pre' = region_sum n s pre
+                        + zsum (map (fun i => zsum (map (fun col => gsel s col i) cols)) levels).
+Proof.
+  induction levels as [|i levels IH]; intros pre Hn Hp Hc Hs Hl.
+  - cbn. split; [reflexivity | lia].
+  - cbv zeta. cbn [fold_left].
+    destruct (level_step n s cols pre i Hn Hp Hc Hs (Hl i (or_introl eq_refl))) as [H1 H2].
+    destruct (IH (accumulate pre (level_codes cols i)) Hn (eq_trans H1 Hp) Hc Hs
+                 (fun j Hj => Hl j (or_intror Hj))) as [H3 H4].
+    split; [congruence|]. rewrite H4, H2. cbn [map zsum fold_right].
+    fold (zsum (map (fun i0 => zsum (map (fun col => gsel s col i0) cols)) levels)). lia.
+Qed.
+
+(* a bin holding c <= m spikes of sorter s is counted c times over the m levels *)
+Lemma gsel_levels s col (M : nat) :
+  let c := nth (Z.to_nat s) col 0 in
+  0 <= c <= zmaxl col ->
+  zsum (map (gsel s col) (zrange M)) = Z.max 0 (Z.min (Z.of_nat M) (zmaxl col) - (zmaxl col - c)).
+Proof.
+  intros c Hc. induction M as [|M IH].
+  - cbn [zrange seq map zsum fold_right]. lia.
+  - rewrite zrange_S, map_app, zsum_app, IH. cbn [map zsum fold_right]. unfold gsel. fold c.
+    destruct (Z.gtb_spec (zmaxl col - Z.of_nat M) 0); destruct (Z.geb_spec c (zmaxl col - Z.of_nat M));
+      cbn [andb]; lia.
+Qed.
+
+Lemma venn_chunk_sum n s cols pre :
+  n = 2 \/ n = 3 -> length pre = Z.to_nat (2 ^ n - 1) ->
+  (forall col, In col cols -> length col = Z.to_nat n /\ (forall c, In c col -> 0 <= c)) ->
+  0 <= s < n ->
+  length (venn_chunk cols pre) = length pre /\
+  region_sum n s (venn_chunk cols pre)
+  = region_sum n s pre + zsum (map (fun col => nth (Z.to_nat s) col 0) cols).
+Proof.
+  intros Hn Hp Hc Hs. unfold venn_chunk.
+  set (M := Z.to_nat (zmaxl (map zmaxl cols))).
+  destruct (levels_step n s cols (zrange M) pre Hn Hp (fun c H => proj1 (Hc c H)) Hs) as [H1 H2].
+  { intros i Hi. apply in_zrange in Hi. lia. }
+  split; [exact H1|]. rewrite H2. f_equal.
+  rewrite zsum_swap. apply zsum_map_ext. intros col Hcol.
+  destruct (Hc col Hcol) as [Hlen Hpos].
+  assert (Hin : In (nth (Z.to_nat s) col 0) col) by (apply nth_In; lia).
+  change (fun a => gsel s col a) with (gsel s col).
+  rewrite gsel_levels by (split; [apply Hpos, Hin | apply zmaxl_ge, Hin]).
+  assert (zmaxl col <= Z.of_nat M).
+  { unfold M. rewrite Z2Nat.id by apply zmaxl_nonneg. apply zmaxl_ge, in_map, Hcol. }
+  pose proof (Hpos _ Hin). pose proof (zmaxl_ge col _ Hin). lia.
+Qed.
+
+(* ------------------------------------------------------------------ *)
+(* venn: bins, chunks, the whole function                              *)
+(* ------------------------------------------------------------------ *)
+Lemma bin_id_range xbin ybin nx ny off sp id :
+  bin_id xbin ybin nx ny off sp = Some id -> 0 <= id < nx * ny.
+Proof.
+  unfold bin_id.
+  destruct (Z.leb_spec 0 ((fst sp - off) / xbin)); cbn [andb]; [|discriminate].
+  destruct (Z.ltb_spec ((fst sp - off) / xbin) nx); cbn [andb]; [|discriminate].
+  destruct (Z.leb_spec 0 (snd sp / ybin)); cbn [andb]; [|discriminate].
+  destruct (Z.ltb_spec (snd sp / ybin) ny); [|discriminate].
+  intros H'. inversion H'. nia.
+Qed.
+
+Lemma option_all_nth {A B} (F : A -> option B) dA dB : forall l l' k,
+  option_all (map F l) = Some l' -> (k < length l)%nat ->
+  length l' = length l /\ F (nth k l dA) = Some (nth k l' dB).
+Proof.
+  induction l as [|a l IH]; intros l' k H Hk; [cbn in Hk; lia|].
+  cbn [map option_all] in H. destruct (F a) as [b|] eqn:Fa; [|discriminate].
+  destruct (option_all (map F l)) as [r|] eqn:Hr; [|discriminate]. inversion H; subst l'.
+  destruct k as [|k].
+  - cbn [nth length]. split; [|exact Fa].
+    destruct l as [|a2 l2]; [cbn in Hr; inversion Hr; reflexivity|].
+    f_equal. apply (IH r 0%nat eq_refl). cbn; lia.
+  - cbn [nth length]. cbn [length] in Hk. destruct (IH r k eq_refl ltac:(lia)) as [H1 H2].
+    split; [now f_equal | exact H2].
+Qed.
+
+Lemma option_all_in {A B} (F : A -> option B) : forall l l' y,
+  option_all (map F l) = Some l' -> In y l' -> exists x, In x l /\ F x = Some y.
+Proof.
+  induction l as [|a l IH]; intros l' y H Hy; cbn [map option_all] in H.
+  - inversion H; subst. destruct Hy.
+  - destruct (F a) as [b|] eqn:Fa; [|discriminate].
+    destruct (option_all (map F l)) as [r|] eqn:Hr; [|discriminate]. inversion H; subst l'.
+    destruct Hy as [<-|Hy].
+    + exists a. split; [now left | exact Fa].
+    + destruct (IH r y eq_refl Hy) as [x [Hx Fx]]. exists x. split; [now right | exact Fx].
+Qed.
+
+Lemma option_all_length {A B} (F : A -> option B) : forall l l',
+  option_all (map F l) = Some l' -> length l' = length l.
+Proof.
+  induction l as [|a l IH]; intros l' H; cbn [map option_all] in H.
+  - inversion H. reflexivity.
+  - destruct (F a); [|discriminate]. destruct (option_all (map F l)) as [r|]; [|discriminate].
+    inversion H. cbn [length]. f_equal. now apply IH.
+Qed.
+
+Lemma chunk_cols_sum P (trains : list (list spike)) ch cols n s pre :
+  n = 2 \/ n = 3 -> n = Z.of_nat (length trains) -> length pre = Z.to_nat (2 ^ n - 1) ->
+  0 <= s < n -> chunk_cols P trains ch = Some cols ->
+  length (venn_chunk cols pre) = length pre /\
+  region_sum n s (venn_chunk cols pre)
+  = region_sum n s pre
+    + Z.of_nat (length (chunk_spikes (ch * v_chunk P) (v_chunk P) (nth (Z.to_nat s) trains []))).
+Proof.
+  intros Hn Hlen Hp Hs H. unfold chunk_cols in H.
+  destruct (chunk_ids P trains ch) as [idss|] eqn:Hids; [|discriminate]. inversion H; subst cols; clear H.
+  unfold chunk_ids in Hids.
+  set (F := fun t => option_all (map (bin_id (v_xbin P) (v_ybin P) (v_nx P) (v_ny P) (ch * v_chunk P))
+                                     (chunk_spikes (ch * v_chunk P) (v_chunk P) t))) in Hids.
+  destruct (option_all_nth F [] [] trains idss (Z.to_nat s) Hids ltac:(lia)) as [Hl Hk].
+  unfold F in Hk.
+  pose proof (option_all_length _ _ _ Hk) as Hlk.
+  assert (Hrange : forall id, In id (nth (Z.to_nat s) idss []) -> 0 <= id < v_nx P * v_ny P).
+  { intros id Hid. destruct (option_all_in _ _ _ id Hk Hid) as [sp [_ Hsp]]. exact (bin_id_range _ _ _ _ _ _ _ Hsp). }
+  destruct (venn_chunk_sum n s (cols_of (v_nx P * v_ny P) idss) pre Hn Hp) as [H1 H2]; [|exact Hs|].
+  { intros col Hcol. unfold cols_of in Hcol. apply in_map_iff in Hcol. destruct Hcol as [j [<- _]].
+    split; [rewrite map_length; lia|]. intros c Hc. apply in_map_iff in Hc. destruct Hc as [ids [<- _]].
+    apply count_eq_nonneg. }
+  split; [exact H1|]. rewrite H2. f_equal. unfold cols_of. rewrite map_map.
+  rewrite (zsum_map_ext _ (fun j => count_eq j (nth (Z.to_nat s) idss []))).
+  - rewrite count_partition; [lia|]. intros x Hx. specialize (Hrange x Hx). lia.
+  - intros j _. rewrite (nth_indep _ 0 ((fun l => count_eq j l) [])) by (rewrite map_length; lia).
+    apply (map_nth (fun l => count_eq j l) idss []).
+Qed.
+
+Lemma venn_loop_sum P (trains : list (list spike)) n s : forall chs pre res,
+  n = 2 \/ n = 3 -> n = Z.of_nat (length trains) -> length pre = Z.to_nat (2 ^ n - 1) ->
+  0 <= s < n -> venn_loop P trains chs pre = Some res ->
+  length res = length pre /\
+  region_sum n s res
+  = region_sum n s pre
+    + zsum (map (fun ch => Z.of_nat (length (chunk_spikes (ch * v_chunk P) (v_chunk P)
+                                                          (nth (Z.to_nat s) trains [])))) chs).
+Proof.
+  induction chs as [|ch chs IH]; intros pre res Hn Hlen Hp Hs H; cbn [venn_loop] in H.
+  - inversion H. cbn [map zsum fold_right]. split; [reflexivity | lia].
+  - destruct (chunk_cols P trains ch) as [cols|] eqn:Hc; [|discriminate].
+    destruct (chunk_cols_sum P trains ch cols n s pre Hn Hlen Hp Hs Hc) as [H1 H2].
+    destruct (IH _ _ Hn Hlen (eq_trans H1 Hp) Hs H) as [H3 H4].
+    split; [congruence|]. rewrite H4, H2. cbn [map zsum fold_right].
+    fold (zsum (map (fun ch0 => Z.of_nat (length (chunk_spikes (ch0 * v_chunk P) (v_chunk P)
+                                                          (nth (Z.to_nat s) trains [])))) chs)). lia.
+Qed.
+
+Lemma in_chunk_div chunk ch (sp : spike) : 0 < chunk ->
+  in_chunk (ch * chunk) chunk sp = (ch =? fst sp / chunk).
+Proof.
+  intros Hc. unfold in_chunk.
+  pose proof (Z.div_mod (fst sp) chunk ltac:(lia)). pose proof (Z.mod_pos_bound (fst sp) chunk Hc).
+  destruct (Z.eqb_spec ch (fst sp / chunk)) as [E|E];
+  destruct (Z.leb_spec (ch * chunk) (fst sp)); destruct (Z.ltb_spec (fst sp) (ch * chunk + chunk));
+    cbn [andb]; try reflexivity; exfalso; nia.
+Qed.
+
+(* every spike lies in exactly one chunk *)
+Lemma chunks_cover chunk (N : nat) (t : list spike) : 0 < chunk ->
+  (forall sp, In sp t -> 0 <= fst sp / chunk < Z.of_nat N) ->
+  zsum (map (fun ch => Z.of_nat (length (chunk_spikes (ch * chunk) chunk t))) (zrange N))
+  = Z.of_nat (length t).
+Proof.
+  intros Hc. induction t as [|a t IH]; intros H.
+  - cbn [chunk_spikes filter length]. apply zsum_map_zero.
+  - rewrite (zsum_map_ext _ (fun ch => (if ch =? fst a / chunk then 1 else 0)
+                                       + Z.of_nat (length (chunk_spikes (ch * chunk) chunk t)))).
+    + rewrite zsum_map_add, zsum_indicator, IH; [cbn [length]; lia | |].
+      * intros sp Hsp. apply H. now right.
+      * apply H. now left.
+    + intros ch _. unfold chunk_spikes. cbn [filter]. rewrite in_chunk_div by exact Hc.
+      destruct (ch =? fst a / chunk); cbn [length]; lia.
+Qed.
+
+Lemma region_sum_zero n s : n = 2 \/ n = 3 -> 0 <= s < n ->
+  region_sum n s (repeat 0 (Z.to_nat (2 ^ n - 1))) = 0.
+Proof.
+  intros [-> | ->] Hs.
+  - assert (Hs' : s = 0 \/ s = 1) by lia. destruct Hs' as [-> | ->]; reflexivity.
+  - assert (Hs' : s = 0 \/ s = 1 \/ s = 2) by lia. destruct Hs' as [-> | [-> | ->]]; reflexivity.
+Qed.
+
+Theorem venn_conserves P (trains : list (list spike)) res n s :
+  n = Z.of_nat (length trains) -> n = 2 \/ n = 3 -> 0 < v_chunk P ->
+  (forall t sp, In t trains -> In sp t -> 0 <= fst sp) ->
+  venn P trains = Some res -> 0 <= s < n ->
+  Z.of_nat (length res) = 2 ^ n - 1 /\
+  region_sum n s res = Z.of_nat (length (nth (Z.to_nat s) trains [])).
+Proof.
+  intros Hlen Hn Hc Hpos H Hs. unfold venn in H.
+  match type of H with (if ?b then _ else _) = _ => destruct b end; [discriminate|].
+  rewrite <- Hlen in H.
+  destruct (venn_loop_sum P trains n s _ _ res Hn Hlen (repeat_length _ _) Hs H) as [H1 H2].
+  split.
+  { rewrite H1, repeat_length. destruct Hn as [-> | ->]; reflexivity. }
+  rewrite H2, region_sum_zero by assumption.
+  rewrite chunks_cover; [lia | exact Hc |].
+  intros sp Hsp.
+  assert (Ht : In (nth (Z.to_nat s) trains []) trains) by (apply nth_In; lia).
+  pose proof (Hpos _ _ Ht Hsp) as H0.
+  assert (Hmax : fst sp <= max_sample trains).
+  { unfold max_sample. etransitivity; [apply (zmaxl_ge (map fst (nth (Z.to_nat s) trains []))), in_map, Hsp|].
+    apply zmaxl_ge. apply (in_map (fun t => zmaxl (map fst t))), Ht. }
+  pose proof (Z.div_pos (fst sp) (v_chunk P) H0 Hc).
+  pose proof (Z.div_le_mono _ _ (v_chunk P) Hc Hmax).
+  rewrite Z2Nat.id; lia.
+Qed.
+
+(* ------------------------------------------------------------------ *)
+(* voltage.stack                                                       *)
+(* ------------------------------------------------------------------ *)
+Lemma insert_u_in a l x : In x (insert_u a l) <-> x = a \/ In x l.
+Proof.
+  induction l as [|b l IH]; cbn [insert_u].
+  - cbn. intuition.
+  - destruct (Z.ltb_spec a b); [cbn; intuition|].
+    destruct (Z.eqb_spec a b) as [->|]; [cbn; intuition|].
+    cbn [In]. rewrite IH. intuition.
+Qed.
+
+Lemma insert_u_sorted a l : StronglySorted Z.lt l -> StronglySorted Z.lt (insert_u a l).
+Proof.
+  induction l as [|b l IH]; intros Hs; cbn [insert_u].
+  - constructor; constructor.
+  - inversion Hs as [|? ? Hs' Hall]; subst.
+    destruct (Z.ltb_spec a b) as [Hab|Hab].
+    + constructor; [exact Hs|]. constructor; [exact Hab|].
+      rewrite Forall_forall in *. intros x Hx. specialize (Hall x Hx). lia.
+    + destruct (Z.eqb_spec a b) as [->|Hne]; [exact Hs|].
+      constructor; [apply IH, Hs'|]. rewrite Forall_forall in *. intros x Hx.
+      apply insert_u_in in Hx. destruct Hx as [->|Hx]; [lia | apply Hall, Hx].
+Qed.
+
+Lemma uniq_sorted_in l x : In x (uniq_sorted l) <-> In x l.
+Proof.
+  induction l as [|a l IH]; cbn [uniq_sorted fold_right]; [reflexivity|].
+  fold (uniq_sorted l). rewrite insert_u_in, IH. cbn. intuition.
+Qed.
+
+Lemma uniq_sorted_sorted l : StronglySorted Z.lt (uniq_sorted l).
+Proof.
+  induction l as [|a l IH]; cbn [uniq_sorted fold_right]; [constructor|].
+  apply insert_u_sorted, IH.
+Qed.
+
+Lemma sorted_nodup l : StronglySorted Z.lt l -> NoDup l.
+Proof.
+  induction 1 as [|a l Hs IH Hall]; constructor; [|exact IH].
+  intros Hin. rewrite Forall_forall in Hall. specialize (Hall a Hin). lia.
+Qed.
+
+Lemma zsum_indicator_nodup (l : list Z) a : NoDup l -> In a l ->
+  zsum (map (fun g => if g =? a then 1 else 0) l) = 1.
+Proof.
+  induction 1 as [|b l Hnin Hnd IH]; intros Hin; [destruct Hin|].
+  cbn [map zsum fold_right]. fold (zsum (map (fun g => if g =? a then 1 else 0) l)).
+  destruct Hin as [->|Hin].
+  - rewrite Z.eqb_refl. rewrite (zsum_map_ext _ (fun _ => 0)), zsum_map_zero; [lia|].
+    intros x Hx. destruct (Z.eqb_spec x a) as [->|]; [contradiction | reflexivity].
+  - rewrite IH by exact Hin. destruct (Z.eqb_spec b a) as [->|]; [contradiction | lia].
+Qed.
+
+(* every trace belongs to exactly one group: the folds add up to the trace count *)
+Lemma fold_total (groups word : list Z) : NoDup groups -> (forall x, In x word -> In x groups) ->
+  zsum (map (fun g => count_eq g word) groups) = Z.of_nat (length word).
+Proof.
+  intros Hnd. induction word as [|a w IH]; intros Hin.
+  - unfold count_eq. cbn [filter length]. apply zsum_map_zero.
+  - rewrite (zsum_map_ext _ (fun g => (if g =? a then 1 else 0) + count_eq g w))
+      by (intros; apply count_eq_cons).
+    rewrite zsum_map_add, zsum_indicator_nodup, IH; [cbn [length]; lia | | exact Hnd |].
+    + intros x Hx. apply Hin. now right.
+    + apply Hin. now left.
+Qed.
+
+Lemma select_cons {A} w (word : list Z) (d : A) data g :
+  select (w :: word) (d :: data) g = if w =? g then d :: select word data g else select word data g.
+Proof. unfold select. cbn [combine filter fst]. destruct (w =? g); reflexivity. Qed.
+
+Lemma select_length {A} (word : list Z) : forall (data : list A) g, length data = length word ->
+  Z.of_nat (length (select word data g)) = count_eq g word.
+Proof.
+  induction word as [|w word IH]; intros data g Hl.
+  - destruct data; reflexivity.
+  - destruct data as [|d data]; [discriminate|]. rewrite select_cons, count_eq_cons.
+    rewrite (Z.eqb_sym g w). injection Hl as Hl. specialize (IH data g Hl).
+    destruct (w =? g); cbn [length]; lia.
+Qed.
+
+Lemma select_in {A} (word : list Z) : forall (data : list A) g row,
+  In row (select word data g) <->
+  exists k, nth_error word k = Some g /\ nth_error data k = Some row.
+Proof.
+  induction word as [|w word IH]; intros data g row.
+  - unfold select. cbn. split; [tauto|]. intros [k [H _]]. destruct k; discriminate.
+  - destruct data as [|d data].
+    + unfold select. cbn. split; [tauto|]. intros [k [_ H]]. destruct k; discriminate.
+    + rewrite select_cons. destruct (Z.eqb_spec w g) as [->|Hne].
+      * cbn [In]. rewrite IH. split.
+        -- intros [<-|[k Hk]]; [exists 0%nat; cbn; auto | exists (S k); exact Hk].
+        -- intros [[|k] Hk]; [left; cbn in Hk; destruct Hk as [_ Hk]; now inversion Hk | right; exists k; exact Hk].
+      * rewrite IH. split.
+        -- intros [k Hk]. exists (S k). exact Hk.
+        -- intros [[|k] Hk]; [cbn in Hk; destruct Hk as [Hk _]; inversion Hk; contradiction | exists k; exact Hk].
+Qed.
+
+Lemma count_eq_pos g word : In g word -> 0 < count_eq g word.
+Proof.
+  induction word as [|w word IH]; intros Hg; [destruct Hg|].
+  rewrite count_eq_cons. pose proof (count_eq_nonneg g word).
+  destruct Hg as [->|Hg]; [rewrite Z.eqb_refl; lia|]. specialize (IH Hg). destruct (g =? w); lia.
+Qed.
+
+Theorem stack_spec {A B} (agg : list A -> B) (data : list A) (word : list Z) st fold :
+  length data = length word -> stack agg data word = (st, fold) ->
+  let groups := uniq_sorted word in
+  StronglySorted Z.lt groups /\ (forall g, In g groups <-> In g word) /\
+  st = map (fun g => agg (select word data g)) groups /\
+  fold = map (fun g => count_eq g word) groups /\
+  (forall g, In g groups -> 0 < count_eq g word /\
+             Z.of_nat (length (select word data g)) = count_eq g word) /\
+  (forall g row, In row (select word data g) <->
+                 exists k, nth_error word k = Some g /\ nth_error data k = Some row) /\
+  zsum fold = Z.of_nat (length word).
+Proof.
+  intros Hl H. unfold stack in H. inversion H; subst st fold; clear H. cbv zeta.
+  split; [apply uniq_sorted_sorted|]. split; [apply uniq_sorted_in|].
+  split; [reflexivity|]. split; [reflexivity|]. split; [|split].
+  - intros g Hg. split; [|apply select_length, Hl].
+    apply count_eq_pos. now apply (proj1 (uniq_sorted_in word g)).
+  - apply select_in.
+  - apply fold_total; [apply sorted_nodup, uniq_sorted_sorted | intros x Hx; now apply uniq_sorted_in].
+Qed.
+
+(* ------------------------------------------------------------------ *)
+(* smooth.rolling_window / smooth.lp: lengths                          *)
+(* ------------------------------------------------------------------ *)
+Lemma even_mod k : Z.even k = (k mod 2 =? 0).
+Proof.
+  destruct (Z.even k) eqn:E; symmetry.
+  - apply Z.even_spec in E. destruct E as [m ->]. apply Z.eqb_eq.
+    rewrite Z.mul_comm. apply Z.mod_mul. lia.
+  - apply Z.eqb_neq. intros Hm. rewrite <- Z.negb_odd in E. apply negb_false_iff in E.
+    apply Z.odd_spec in E. destruct E as [m ->].
+    rewrite Z.add_comm, Z.mul_comm, Z.mod_add in Hm by lia. discriminate.
+Qed.
+
+(* round(w/2 - 1) - round(-(w/2)) = w - 1 for BOTH parities (Python rounds half to even) *)
+Lemma round_half_span w : py_round_half (w - 2) - py_round_half (- w) = w - 1.
+Proof.
+  unfold py_round_half. rewrite !even_mod.
+  pose proof (Z.div_mod w 2 ltac:(lia)). pose proof (Z.mod_pos_bound w 2 ltac:(lia)).
+  pose proof (Z.div_mod (w - 2) 2 ltac:(lia)). pose proof (Z.mod_pos_bound (w - 2) 2 ltac:(lia)).
+  pose proof (Z.div_mod (- w) 2 ltac:(lia)). pose proof (Z.mod_pos_bound (- w) 2 ltac:(lia)).
+  pose proof (Z.div_mod ((w - 2) / 2) 2 ltac:(lia)). pose proof (Z.mod_pos_bound ((w - 2) / 2) 2 ltac:(lia)).
+  pose proof (Z.div_mod (- w / 2) 2 ltac:(lia)). pose proof (Z.mod_pos_bound (- w / 2) 2 ltac:(lia)).
+  destruct (Z.eqb_spec ((w - 2) mod 2) 0); destruct (Z.eqb_spec (- w mod 2) 0);
+  destruct (Z.eqb_spec (((w - 2) / 2) mod 2) 0); destruct (Z.eqb_spec ((- w / 2) mod 2) 0); lia.
+Qed.
+
+Lemma round_half_bounds w : 3 <= w ->
+  0 <= py_round_half (w - 2) /\ py_round_half (- w) < 0 /\ 2 * py_round_half (w - 2) <= w - 1.
+Proof.
+  intros Hw. unfold py_round_half. rewrite !even_mod.
+  pose proof (Z.div_mod (w - 2) 2 ltac:(lia)). pose proof (Z.mod_pos_bound (w - 2) 2 ltac:(lia)).
+  pose proof (Z.div_mod (- w) 2 ltac:(lia)). pose proof (Z.mod_pos_bound (- w) 2 ltac:(lia)).
+  destruct (Z.eqb_spec ((w - 2) mod 2) 0); destruct (Z.eqb_spec (- w mod 2) 0);
+  destruct (Z.eqb_spec (((w - 2) / 2) mod 2) 0); destruct (Z.eqb_spec ((- w / 2) mod 2) 0); lia.
+Qed.
+
+Lemma pyslice_length {A} a b (l : list A) :
+  0 <= a -> b < 0 -> a <= Z.of_nat (length l) + b ->
+  Z.of_nat (length (pyslice a b l)) = Z.of_nat (length l) + b - a.
+Proof.
+  intros Ha Hb Hab. unfold pyslice, norm_idx.
+  destruct (Z.ltb_spec a 0); [lia|]. destruct (Z.ltb_spec b 0); [|lia].
+  rewrite firstn_length, skipn_length. lia.
+Qed.
+
+Lemma firstn_incl {A} n (l : list A) x : In x (firstn n l) -> In x l.
+Proof. intros H. rewrite <- (firstn_skipn n l). apply in_or_app. now left. Qed.
+Lemma skipn_incl {A} n (l : list A) x : In x (skipn n l) -> In x l.
+Proof. intros H. rewrite <- (firstn_skipn n l). apply in_or_app. now right. Qed.
+Lemma pyslice_incl {A} a b (l : list A) x : In x (pyslice a b l) -> In x l.
+Proof. unfold pyslice. intros H. eapply skipn_incl, firstn_incl, H. Qed.
+
+Lemma reflect_pad_length {A} w (x : list A) : 1 <= w <= Z.of_nat (length x) ->
+  Z.of_nat (length (reflect_pad w x)) = Z.of_nat (length x) + 2 * (w - 1).
+Proof.
+  intros Hw. unfold reflect_pad. rewrite !app_length, rev_length, !firstn_length, rev_length.
+  destruct x as [|a x]; cbn [length tl] in *; lia.
+Qed.
+
+Lemma reflect_pad_incl {A} w (x : list A) y : In y (reflect_pad w x) -> In y x.
+Proof.
+  unfold reflect_pad. intros H. apply in_app_or in H. destruct H as [H|H].
+  - apply in_rev in H. apply firstn_incl in H. destruct x; [destruct H | now right].
+  - apply in_app_or in H. destruct H as [H|H]; [exact H|]. apply firstn_incl in H. now apply in_rev.
+Qed.
+
+Lemma conv_windows_spec {A} w (s : list A) win : 1 <= w <= Z.of_nat (length s) ->
+  In win (conv_windows w s) -> Z.of_nat (length win) = w /\ forall y, In y win -> In y s.
+Proof.
+  intros Hw H. unfold conv_windows in H. apply in_map_iff in H. destruct H as [m [<- Hm]].
+  apply in_seq in Hm. split.
+  - rewrite rev_length, firstn_length, skipn_length. lia.
+  - intros y Hy. apply in_rev in Hy. eapply skipn_incl, firstn_incl, Hy.
+Qed.
+
+(* every window_len >= 3 (both parities), every input at least that long: one output per
+   input sample, each a combination of exactly window_len input samples *)
+Theorem rolling_keeps_length {A} w (x : list A) : 3 <= w <= Z.of_nat (length x) ->
+  length (rolling_windows w x) = length x /\
+  forall win, In win (rolling_windows w x) ->
+    Z.of_nat (length win) = w /\ forall y, In y win -> In y x.
+Proof.
+  intros Hw. pose proof (reflect_pad_length w x ltac:(lia)) as Hs.
+  destruct (round_half_bounds w ltac:(lia)) as [Ha [Hb Hc]]. pose proof (round_half_span w) as Hsp.
+  split.
+  - unfold rolling_windows. apply Nat2Z.inj. rewrite pyslice_length; try assumption;
+      unfold conv_windows; rewrite map_length, seq_length; lia.
+  - intros win Hin. unfold rolling_windows in Hin. apply pyslice_incl in Hin.
+    destruct (conv_windows_spec w (reflect_pad w x) win ltac:(lia) Hin) as [H1 H2].
+    split; [exact H1|]. intros y Hy. apply reflect_pad_incl with (w := w), H2, Hy.
+Qed.
+
+Lemma rolling_taps_small n w : w < 3 -> w <= n ->
+  rolling_taps n w = Some (map (fun k => [k]) (zrange (Z.to_nat n))).
+Proof. intros H1 H2. unfold rolling_taps. destruct (Z.ltb_spec n w); [lia|]. destruct (Z.ltb_spec w 3); [reflexivity|lia]. Qed.
+
+(* --- lp --- *)
+Lemma edge_pad_length {A} lpad (x : list A) : 0 <= lpad -> x <> [] ->
+  Z.of_nat (length (edge_pad lpad x)) = Z.of_nat (length x) + 2 * lpad.
+Proof.
+  intros Hl Hx. destruct x as [|a x]; [contradiction|]. unfold edge_pad.
+  rewrite !app_length, !repeat_length. lia.
+Qed.
+
+Theorem lp_keeps_length {A} (filt : list A -> list A) lpad (x : list A) :
+  (forall l, length (filt l) = length l) -> 0 < lpad -> length (lp filt lpad x) = length x.
+Proof.
+  intros Hf Hl. destruct x as [|a x].
+  - unfold lp, pyslice. assert (H0 : length (filt (edge_pad lpad [])) = 0%nat) by (rewrite Hf; reflexivity).
+    rewrite firstn_length, skipn_length, H0. cbn [length]. lia.
+  - unfold lp. apply Nat2Z.inj. pose proof (edge_pad_length lpad (a :: x) ltac:(lia) ltac:(discriminate)).
+    rewrite pyslice_length; rewrite ?Hf; lia.
+Qed.
+
+(* a positive pad always gives a positive pad length (n * pad in float64, then ceil) *)
+Lemma rne53_pos N : 0 < N -> 0 < rne53 N.
+Proof.
+  intros HN. unfold rne53. destruct (Z.ltb_spec N (2 ^ 53)); [exact HN|].
+  pose proof (Z.log2_spec N HN) as [Hlo _].
+  assert (53 <= Z.log2 N) by (apply Z.log2_le_pow2; lia).
+  set (sh := Z.log2 N - 52) in *.
+  assert (Hp : 0 < 2 ^ sh) by (apply Z.pow_pos_nonneg; lia).
+  assert (2 ^ sh <= N).
+  { etransitivity; [|exact Hlo]. apply Z.pow_le_mono_r; lia. }
+  assert (0 < N / 2 ^ sh) by (apply Z.div_str_pos; lia).
+  destruct (_ || _); nia.
+Qed.
+
+Lemma lpad_of_pos n m e : 0 < n -> 0 < m -> 0 <= e -> 0 < lpad_of n m e.
+Proof.
+  intros Hn Hm He. unfold lpad_of. apply cdiv_pos; [apply Z.pow_pos_nonneg; lia|].
+  apply rne53_pos. nia.
+Qed.
+
+(* ------------------------------------------------------------------ *)
+(* constants through lp (any element type)                             *)
+(* ------------------------------------------------------------------ *)
+Lemma all_eq_repeat {A} (c : A) l : (forall y, In y l -> y = c) -> l = repeat c (length l).
+Proof.
+  induction l as [|a l IH]; intros H; [reflexivity|]. cbn [length repeat].
+  rewrite (H a (or_introl eq_refl)). f_equal. apply IH. intros y Hy. apply H. now right.
+Qed.
+
+Lemma map_const_repeat {A B} (f : A -> B) c l : (forall y, In y l -> f y = c) -> map f l = repeat c (length l).
+Proof.
+  induction l as [|a l IH]; intros H; [reflexivity|]. cbn [map length repeat].
+  rewrite (H a (or_introl eq_refl)). f_equal. apply IH. intros y Hy. apply H. now right.
+Qed.
+
+Theorem lp_constant {A} (filt : list A -> list A) lpad (c : A) (n : nat) :
+  (forall k, filt (repeat c k) = repeat c k) -> 0 < lpad ->
+  lp filt lpad (repeat c n) = repeat c n.
+Proof.
+  intros Hf Hl.
+  assert (Hlen : length (lp filt lpad (repeat c n)) = n).
+  { destruct n as [|n]; [|].
+    - unfold lp, edge_pad. cbn [repeat]. change (@nil A) with (repeat c 0). rewrite Hf. unfold pyslice.
+      rewrite firstn_length, skipn_length. cbn [repeat length]. lia.
+    - unfold lp. apply Nat2Z.inj.
+      assert (He : edge_pad lpad (repeat c (S n)) = repeat c (length (edge_pad lpad (repeat c (S n))))).
+      { apply all_eq_repeat. intros y Hy. unfold edge_pad in Hy. cbn [repeat] in Hy.
+        apply in_app_or in Hy. destruct Hy as [Hy|Hy]; [now apply repeat_spec in Hy|].
+        apply in_app_or in Hy. destruct Hy as [Hy|Hy].
+        - change (c :: repeat c n) with (repeat c (S n)) in Hy. now apply repeat_spec in Hy.
+        - apply repeat_spec in Hy. rewrite Hy. change (c :: repeat c n) with (repeat c (S n)).
+          clear. generalize (S n). intros k. induction k as [|k IH]; [reflexivity|].
+          cbn [repeat last]. destruct k; [reflexivity | exact IH]. }
+      rewrite He, Hf. pose proof (edge_pad_length lpad (repeat c (S n)) ltac:(lia) ltac:(discriminate)) as Hp.
+      rewrite repeat_length in Hp. rewrite pyslice_length; rewrite ?repeat_length; lia. }
+  rewrite <- Hlen at 2. apply all_eq_repeat. intros y Hy. unfold lp in Hy. apply pyslice_incl in Hy.
+  assert (He : forall z, In z (edge_pad lpad (repeat c n)) -> z = c).
+  { intros z Hz. unfold edge_pad in Hz. destruct n as [|n]; [destruct Hz|]. cbn [repeat] in Hz.
+    apply in_app_or in Hz. destruct Hz as [Hz|Hz]; [now apply repeat_spec in Hz|].
+    apply in_app_or in Hz. destruct Hz as [Hz|Hz].
+    - change (c :: repeat c n) with (repeat c (S n)) in Hz. now apply repeat_spec in Hz.
+    - apply repeat_spec in Hz. rewrite Hz. change (c :: repeat c n) with (repeat c (S n)).
+      clear. generalize (S n). intros k. induction k as [|k IH]; [reflexivity|].
+      cbn [repeat last]. destruct k; [reflexivity | exact IH]. }
+  rewrite (all_eq_repeat c _ He), Hf in Hy. now apply repeat_spec in Hy.
+Qed.
+
+(* ------------------------------------------------------------------ *)
+(* field-valued statements                                              *)
+(* ------------------------------------------------------------------ *)
+Section FieldProofs.
+Variable R : Type.
+Variables (rO rI : R) (radd rmul rsub : R -> R -> R) (ropp : R -> R) (rdiv : R -> R -> R) (rinv : R -> R).
+Hypothesis Fth : field_theory rO rI radd rmul rsub ropp rdiv rinv (@eq R).
+Add Field Ffield : Fth.
+Set Default Proof Using "Fth".
+
+Local Notation rsum := (rsuml R rO radd).
+Local Notation rdot := (dot R rO radd rmul).
+Local Notation pw := (rpow R rI rmul).
+Local Notation ofnat := (rofnat R rO rI radd).
+
+Lemma rsum_map_add {A} (f g : A -> R) l :
+  rsum (map (fun x => radd (f x) (g x)) l) = radd (rsum (map f l)) (rsum (map g l)).
+Proof. induction l as [|a l IH]; cbn [map rsuml fold_right]; [ring|]. fold (rsum (map (fun x => radd (f x) (g x)) l)) (rsum (map f l)) (rsum (map g l)). rewrite IH. ring. Qed.
+
+Lemma rsum_map_ext {A} (f g : A -> R) l : (forall x, In x l -> f x = g x) -> rsum (map f l) = rsum (map g l).
+Proof.
+  induction l as [|a l IH]; intros H; cbn [map rsuml fold_right]; [reflexivity|].
+  fold (rsum (map f l)) (rsum (map g l)). rewrite (H a (or_introl eq_refl)), IH; [reflexivity|].
+  intros x Hx. apply H. now right.
+Qed.
+
+Lemma rsum_map_zero {A} (l : list A) : rsum (map (fun _ => rO) l) = rO.
+Proof. induction l as [|a l IH]; cbn [map rsuml fold_right]; [reflexivity|]. fold (rsum (map (fun _ : A => rO) l)). rewrite IH. ring. Qed.
+
+Lemma rsum_map_scal_l {A} c (f : A -> R) l : rsum (map (fun x => rmul c (f x)) l) = rmul c (rsum (map f l)).
+Proof. induction l as [|a l IH]; cbn [map rsuml fold_right]; [ring|]. fold (rsum (map (fun x => rmul c (f x)) l)) (rsum (map f l)). rewrite IH. ring. Qed.
+
+Lemma rsum_map_scal_r {A} c (f : A -> R) l : rsum (map (fun x => rmul (f x) c) l) = rmul (rsum (map f l)) c.
+Proof. induction l as [|a l IH]; cbn [map rsuml fold_right]; [ring|]. fold (rsum (map (fun x => rmul (f x) c) l)) (rsum (map f l)). rewrite IH. ring. Qed.
+
+Lemma rsum_swap {A B} (f : A -> B -> R) la lb :
+  rsum (map (fun a => rsum (map (f a) lb)) la) = rsum (map (fun b => rsum (map (fun a => f a b) la)) lb).
+Proof.
+  induction la as [|a la IH]; cbn [map rsuml fold_right].
+  - now rewrite rsum_map_zero.
+  - fold (rsum (map (fun a0 => rsum (map (f a0) lb)) la)). rewrite IH, <- rsum_map_add.
+    apply rsum_map_ext. intros b _. cbn [map rsuml fold_right]. reflexivity.
+Qed.
+
+Lemma rsum_single (p : nat) (k : nat) (f : nat -> R) : (k < p)%nat ->
+  rsum (map (fun m => if (m =? k)%nat then f m else rO) (seq 0 p)) = f k.
+Proof.
+  intros Hk. induction p as [|p IH]; [lia|].
+  rewrite seq_S, map_app. cbn [map plus].
+  assert (Happ : forall l1 l2, rsum (l1 ++ l2) = radd (rsum l1) (rsum l2)).
+  { unfold rsuml. induction l1 as [|a l1 IH1]; intros l2; cbn [app fold_right]; [ring|]. rewrite IH1. ring. }
+  rewrite Happ. cbn [rsuml fold_right].
+  destruct (Nat.eqb_spec p k) as [->|Hne].
+  - rewrite (rsum_map_ext _ (fun _ => rO)), rsum_map_zero; [ring|].
+    intros x Hx. apply in_seq in Hx. destruct (Nat.eqb_spec x k); [lia | reflexivity].
+  - rewrite IH by lia. ring.
+Qed.
+
+(* dot product against a function tabulated on seq *)
+Lemma dot_seq (f : nat -> R) : forall (p s : nat) (a : list R), length a = p ->
+  rdot a (map f (seq s p)) = rsum (map (fun k => rmul (nth k a rO) (f (s + k)%nat)) (seq 0 p)).
+Proof.
+  induction p as [|p IH]; intros s a Ha.
+  - destruct a; [reflexivity | discriminate].
+  - destruct a as [|a0 a]; [discriminate|]. injection Ha as Ha.
+    cbn [seq map]. unfold dot. cbn [combine map rsuml fold_right fst snd].
+    change (fold_right radd rO (map (fun p0 : R * R => rmul (fst p0) (snd p0)) (combine a (map f (seq (S s) p)))))
+      with (rdot a (map f (seq (S s) p))).
+    rewrite (IH (S s) a Ha). rewrite <- (seq_shift p 0), map_map. unfold rsuml. f_equal.
+    + cbn [nth]. now rewrite Nat.add_0_r.
+    + apply rsum_map_ext. intros k _. cbn [nth]. now rewrite Nat.add_succ_r.
+Qed.
+
+Lemma dot_map_r {A} (f g : A -> R) (l : list A) :
+  rdot (map f l) (map g l) = rsum (map (fun x => rmul (f x) (g x)) l).
+Proof. unfold dot, rsuml. induction l as [|a l IH]; [reflexivity|]. cbn [map combine fold_right fst snd]. now rewrite IH. Qed.
+
+Lemma peval_seq (c : list R) (d : R) :
+  peval R rO rI radd rmul c d = rsum (map (fun k => rmul (nth k c rO) (pw d k)) (seq 0 (length c))).
+Proof.
+  unfold peval.
+  assert (H : forall (c : list R) s,
+    rsum (map (fun kc : nat * R => rmul (snd kc) (pw d (fst kc))) (combine (seq s (length c)) c))
+    = rsum (map (fun k => rmul (nth k c rO) (pw d (s + k)%nat)) (seq 0 (length c)))).
+  { clear c. induction c as [|c0 c IH]; intros s; [reflexivity|].
+    cbn [length seq combine map rsuml fold_right fst snd nth]. rewrite Nat.add_0_r. f_equal.
+    fold (rsum (map (fun kc : nat * R => rmul (snd kc) (pw d (fst kc))) (combine (seq (S s) (length c)) c))).
+    rewrite IH, <- seq_shift, map_map. apply rsum_map_ext. intros k _. cbn [nth]. now rewrite Nat.add_succ_r. }
+  apply (H c 0%nat).
+Qed.
+
+(* ---------------- rolling_window returns constants unchanged ---------------- *)
+Lemma dot_norm_const (w : list R) (W c : R) : W <> rO ->
+  rdot (map (fun a => rdiv a W) w) (repeat c (length w)) = rmul (rdiv (rsum w) W) c.
+Proof.
+  intros HW. unfold dot, rsuml. induction w as [|a w IH]; cbn [map length repeat combine fold_right fst snd].
+  - field. exact HW.
+  - rewrite IH. field. exact HW.
+Qed.
+
+Theorem rolling_constant (w : list R) (c : R) (n : nat) :
+  rsum w <> rO -> (3 <= length w <= n)%nat ->
+  rolling R rO radd rmul rdiv w (repeat c n) = repeat c n.
+Proof.
+  intros HW Hn. unfold rolling.
+  destruct (rolling_keeps_length (Z.of_nat (length w)) (repeat c n)) as [Hlen Hwin];
+    [rewrite repeat_length; lia|].
+  rewrite repeat_length in Hlen. rewrite <- Hlen at 2. apply map_const_repeat.
+  intros win Hin. destruct (Hwin win Hin) as [H1 H2].
+  rewrite (all_eq_repeat c win) by (intros y Hy; apply H2 in Hy; now apply repeat_spec in Hy).
+  apply Nat2Z.inj in H1. rewrite H1, dot_norm_const by exact HW. field. exact HW.
+Qed.
+
+(* ---------------- cadzow.denoise: identity when the rank is not reduced ---------------- *)
+Lemma unfill_sum (w : list R) k : 0 <= k -> forall entries,
+  rsum (map (fun ev : Z * R => if fst ev =? k then snd ev else rO)
+            (combine entries (fill R rO entries w)))
+  = rmul (ofnat (Z.to_nat (count_eq k entries))) (nth (Z.to_nat k) w rO).
+Proof.
+  intros Hk. induction entries as [|e entries IH].
+  - cbn. ring.
+  - cbn [fill map combine rsuml fold_right fst snd]. fold (fill R rO entries w).
+    fold (rsum (map (fun ev : Z * R => if fst ev =? k then snd ev else rO) (combine entries (fill R rO entries w)))).
+    rewrite IH, count_eq_cons. pose proof (count_eq_nonneg k entries).
+    rewrite (Z.eqb_sym k e). destruct (Z.eqb_spec e k) as [->|Hne].
+    + destruct (Z.ltb_spec k 0); [lia|]. rewrite Z2Nat.inj_add by lia. change (Z.to_nat 1) with 1%nat. cbn [plus rofnat]. ring.
+    + cbn [Z.add]. replace (0 + count_eq k entries) with (count_eq k entries) by lia. ring.
+Qed.
+
+Lemma map_nth_zrange (w : list R) : map (fun k => nth (Z.to_nat k) w rO) (zrange (length w)) = w.
+Proof.
+  unfold zrange. rewrite map_map. apply nth_ext with (d := rO) (d' := rO).
+  - now rewrite map_length, seq_length.
+  - intros i Hi. rewrite map_length, seq_length in Hi.
+    rewrite (nth_indep _ rO ((fun x => nth (Z.to_nat (Z.of_nat x)) w rO) 0%nat)) by (rewrite map_length, seq_length; exact Hi).
+    rewrite (map_nth (fun x => nth (Z.to_nat (Z.of_nat x)) w rO)), seq_nth by exact Hi.
+    now rewrite Nat2Z.id.
+Qed.
+
+Theorem denoise_identity (derank : list R -> list R) (entries : list Z) (w : list R) :
+  (forall n, (0 < n)%nat -> ofnat n <> rO) ->                      (* characteristic 0 *)
+  (forall k, 0 <= k < Z.of_nat (length w) -> 0 < count_eq k entries) ->   (* every trace occurs *)
+  derank (fill R rO entries w) = fill R rO entries w ->          (* rank not reduced *)
+  denoise1 R rO rI radd rdiv derank entries w = w.
+Proof.
+  intros Hchar Hcount Hd. unfold denoise1. rewrite Hd. unfold unfill.
+  transitivity (map (fun k => nth (Z.to_nat k) w rO) (zrange (length w))); [|apply map_nth_zrange].
+  apply map_ext_in. intros k Hk. apply in_zrange in Hk.
+  rewrite unfill_sum by lia. specialize (Hcount k Hk).
+  assert (Hne : ofnat (Z.to_nat (count_eq k entries)) <> rO) by (apply Hchar; lia).
+  field. exact Hne.
+Qed.
+
+End FieldProofs.
